@@ -824,6 +824,12 @@ def make_run(name, cfg, trace=None):
         cfg = {**cfg, **options}
     run = Run(name, trace, cfg)
     BUILDERS[name](run)
+    if cfg.get("own_buffer"):
+        # let the routine create its replay buffer itself (replay_buffer=None);
+        # the monitor rebinds the buffer class inside the routine's module
+        run.kwargs["replay_buffer"] = None
+        run.kwargs["buffer_size"] = cfg.get("buffer_size", 1000)
+        run.buffer = None
     if cfg.get("prefill"):
         prefill_buffer(run, int(cfg["prefill"]))
     if options and run.fn is not None:
